@@ -11,34 +11,8 @@ before the D6 repair.
 namespace Cell2v.Props.C05
 open Cell2v.Session
 
-/-- a state reachable from a freshly accepted connection under some schedule -/
-def Reachable (fx : Bool) (s : St) : Prop := ∃ ls, runL fx init ls = some s
-
-theorem reachable_cinv (fx : Bool) (s : St) (h : Reachable fx s) : CInv s := by
-  obtain ⟨ls, hr⟩ := h
-  exact cinv_run fx ls _ _ cinv_init hr
-
-theorem reachable_jh (fx : Bool) (ls : List Lbl) :
-    ∀ (s s' : St), JInv s → HInv s → runL fx s ls = some s' → JInv s' ∧ HInv s' := by
-  induction ls with
-  | nil => intro s s' hj hh hr; simp [runL] at hr; subst hr; exact ⟨hj, hh⟩
-  | cons l ls ih =>
-    intro s s' hj hh hr
-    simp only [runL] at hr
-    cases hf : fire fx s l with
-    | none => simp [hf] at hr
-    | some s1 => simp only [hf] at hr; exact ih s1 s' (jinv_step fx s s1 l hj hf) (hinv_step fx s s1 l hh hf) hr
-
-theorem reachable_einv (ls : List Lbl) :
-    ∀ (s s' : St), CInv s → EInv s → runL true s ls = some s' → EInv s' := by
-  induction ls with
-  | nil => intro s s' _ he hr; simp [runL] at hr; subst hr; exact he
-  | cons l ls ih =>
-    intro s s' hc he hr
-    simp only [runL] at hr
-    cases hf : fire true s l with
-    | none => simp [hf] at hr
-    | some s1 => simp only [hf] at hr; exact ih s1 s' (cinv_step true s s1 l hc hf) (einv_step s s1 l hc he hf) hr
+/-- a state reachable from a connection freshly accepted at some time `t`, under some schedule -/
+def Reachable (fx : Bool) (s : St) : Prop := ∃ t ls, runL fx (initAt t) ls = some s
 
 /-- **close once** (either reader): whatever the interleaving of read error, kick,
 heartbeat expiry and write failure, the session-add was posted exactly once, the
@@ -47,7 +21,8 @@ was posted (≤ 1), and at most one thread is inside the critical section of `Cl
 theorem close_once (fx : Bool) (s : St) (h : Reachable fx s) :
     adds s.posted = 1 ∧ removes s.posted ≤ 1 ∧ s.connCloses = removes s.posted ∧
     csN s.rdC + csN s.wrC + csN s.hbC + csN s.kC ≤ 1 := by
-  obtain ⟨h1, h2, h3, h4, _⟩ := reachable_cinv fx s h
+  obtain ⟨t, ls, hr⟩ := h
+  obtain ⟨h1, h2, h3, h4, _⟩ := cinv_run fx ls _ _ (cinv_init t) hr
   have := b2n_le s.closed
   have := b2n_le s.mutex
   refine ⟨h4, by omega, h3.symm, by omega⟩
@@ -61,9 +36,9 @@ theorem owner_sequence (fx : Bool) (s : St) (h : Reachable fx s) (p : List Ev) (
     p = [] ∨ ∃ ks, (view true false p = .add :: ks.map OEv.msg ∨
                     view true false p = .add :: (ks.map OEv.msg ++ [.remove])) ∧
                    List.Sublist ks s.arrived := by
-  obtain ⟨ls, hr⟩ := h
-  obtain ⟨hj, ⟨r, hh⟩⟩ := reachable_jh fx ls _ _ jinv_init hinv_init hr
-  obtain ⟨_, _, _, h4, _⟩ := cinv_run fx ls _ _ cinv_init hr
+  obtain ⟨t, ls, hr⟩ := h
+  obtain ⟨hj, ⟨r, hh⟩⟩ := jh_run fx ls _ _ (jinv_init t) (hinv_init t) hr
+  obtain ⟨_, _, _, h4, _⟩ := cinv_run fx ls _ _ (cinv_init t) hr
   have hr0 : adds r = 0 := by rw [hh] at h4; simp only [adds] at h4; omega
   rw [hh] at hp
   cases p with
@@ -88,9 +63,9 @@ theorem owner_sequence (fx : Bool) (s : St) (h : Reachable fx s) (p : List Ev) (
 /-- once everything posted has been consumed the owner has seen the remove iff it was posted -/
 theorem owner_sees_remove (fx : Bool) (s : St) (h : Reachable fx s) (hrm : removes s.posted = 1) :
     ∃ ks : List Nat, view true false s.posted = .add :: (ks.map OEv.msg ++ [.remove]) := by
-  obtain ⟨ls, hr⟩ := h
-  obtain ⟨_, ⟨r, hh⟩⟩ := reachable_jh fx ls _ _ jinv_init hinv_init hr
-  obtain ⟨_, _, _, h4, _⟩ := cinv_run fx ls _ _ cinv_init hr
+  obtain ⟨t, ls, hr⟩ := h
+  obtain ⟨_, ⟨r, hh⟩⟩ := jh_run fx ls _ _ (jinv_init t) (hinv_init t) hr
+  obtain ⟨_, _, _, h4, _⟩ := cinv_run fx ls _ _ (cinv_init t) hr
   have hr0 : adds r = 0 := by rw [hh] at h4; simp only [adds] at h4; omega
   have hr1 : removes r = 1 := by rw [hh] at hrm; simpa [removes] using hrm
   rw [hh]
@@ -102,9 +77,9 @@ goroutine has returned, `chanClose` is closed, `conn.Close()` was called once an
 session-remove was posted once. -/
 theorem reader_end_closes (s : St) (h : Reachable true s) (hd : s.rd = .done) :
     s.closed = true ∧ s.connCloses = 1 ∧ removes s.posted = 1 := by
-  obtain ⟨ls, hr⟩ := h
-  have hc := cinv_run true ls _ _ cinv_init hr
-  have he := reachable_einv ls _ _ cinv_init einv_init hr
+  obtain ⟨t, ls, hr⟩ := h
+  have hc := cinv_run true ls _ _ (cinv_init t) hr
+  have he := einv_run ls _ _ (cinv_init t) (einv_init t) hr
   have h1 := he.1 (Or.inl hd)
   obtain ⟨_, c2, c3, _, _⟩ := hc
   have := b2n_le s.closed
@@ -121,8 +96,8 @@ called exactly once, and all three goroutines have returned.  No `Close` caller 
 left waiting and the mutex is free. -/
 theorem every_ending_closes (s : St) (h : Reachable true s) (hs : stuck true s = true) :
     (OpenIdle s ∨ AllDone s) ∧ s.mutex = false ∧ s.kWant = 0 := by
-  obtain ⟨ls, hr⟩ := h
-  exact stuck_shape s (cinv_run true ls _ _ cinv_init hr) (reachable_einv ls _ _ cinv_init einv_init hr) hs
+  obtain ⟨t, ls, hr⟩ := h
+  exact stuck_shape s (cinv_run true ls _ _ (cinv_init t) hr) (einv_run ls _ _ (cinv_init t) (einv_init t) hr) hs
 
 /-- so: once any of the three goroutines has left its waiting point for good — client
 close, malformed input, bad handshake, kick, heartbeat expiry, write failure, or
